@@ -91,6 +91,8 @@ def check_case(case, res: Result):
     from opv.rigs import cmd_rig as CR
     import openpectus.lang.model.ast as p
 
+    CR.install_schedule_hook()
+    CR.REQS.clear()
     kind, at, idx = case["kind"], case["at"], case["idx"]
     rig = R.EngineRig(case["text"], long_n=case["long_n"])
     viol: list[tuple] = []
@@ -197,6 +199,8 @@ def check_case(case, res: Result):
                 flag = "_runstate_paused" if nm == "Pause" else "_runstate_holding"
                 st_name = "Paused" if nm == "Pause" else "Holding"
                 left_now = not getattr(rig.e, flag)
+                oc = rig.e.registry.get_running_command(nm)
+                other_cmd = oc is not None and oc.instance_id != iid
                 in_effect = []
                 for j in range(3):
                     feed()
@@ -206,11 +210,19 @@ def check_case(case, res: Result):
                         in_effect.append(rig.k)
                     if j == 0:
                         left_next = rig.state != st_name
+                was_running = "internalenginecommandset" in inst_states
+                shared = sum(1 for q_ in CR.REQS if q_[2] == iid) >= 2
                 if in_effect:
-                    mech = "C12.cancel_before_command_start_does_not_prevent_it" if not_started_yet else \
+                    # shared: two interpreter paths (stale Watch/Alarm handler, C02 finding) requested the line under one
+                    # instance id; the second request re-creates the command after the cancel
+                    mech = "C12.two_requests_share_one_instance_id" if shared else \
+                        "C12.cancel_before_command_start_does_not_prevent_it" if not_started_yet else \
                         "C12.cancelled_pause_hold_still_running"
                     viol.append((mech, f"{descr} accepted, but the {nm} command instance {iid[:8]} is running at tick(s) "
                                  f"{in_effect} (item states at request: {inst_states})"))
+                elif not was_running or other_cmd:
+                    # the state is (also) held by another Pause/Hold command instance, or this one had not begun
+                    res.count("unjudged_pause_hold_state_held_by_other_command")
                 elif not left_now and not left_next:
                     viol.append(("C12.cancelled_pause_hold_state_not_left",
                                  f"{descr} accepted, but the engine was still {st_name} right after the call and at the end "
